@@ -1,7 +1,7 @@
 """One-off generator of lean/Cog/Total/Reviewed.lean from the current partial-ops table.
 The OUTPUT is committed and maintained by hand afterwards; this script documents the rules used."""
 import json, re
-d = json.load(open('/verif/.work/c04/partial_ops.json'))
+d = json.load(open('/verif/.work/c04/partial_ops_base.json'))
 ops = d['ops']
 
 def esc(s):
@@ -50,7 +50,7 @@ SITES = [
  ("disjunctions_infer_mapping.go", "(*DisjunctionInferMapping).inferDiscriminatorField", "AsRef()", ("dispatch", "hasOnlyRefs checked by processDisjunction")),
  ("disjunction_of_constants_to_enum.go", "(*DisjunctionOfConstantsToEnum).processDisjunction", "*member.Type.Scalar", ("site", "DisjunctionOfConstantsToEnum.enumMembers", "DisjunctionOfConstantsToEnum: member.Type.Scalar", "memberScalar (wfIR)", "C04/yaml/enum-member-without-type")),
  ("constant_to_enum.go", "(*ConstantToEnum).processObject", "Value.(string)", ("site", "Xform.ConstantToEnum.objFail", "panic", "ScalarConstantsTyped", "C04/yaml/constant-to-enum-non-string")),
- ("hint_object.go", "(*HintObject).processObject", "object.Type.Hints[hint] = val", ("site", "Xform.HintObject.objFail", "panic", "NoNilHints", "C04/yaml/hint-object-nil-map")),
+ ("hint_object.go", "(*HintObject).processObject", "object.Type.Hints[hint] = val", ("guarded", "nil-check (fix d683cb9 of /repo: the nil Hints map is made first; was finding C04/yaml/hint-object-nil-map)")),
  ("prefix_objects_names.go", "(*PrefixObjectNames).processStruct", ".(ast.DisjunctionType)", ("site", "Xform.PrefixObjectNames.tyFail", "panic", "NoRawDisjunctionHint", "")),
  ("remove_intersections.go", "RemoveIntersections.processObject", "Hints[ast.HintImplementsVariant] = object.Type.ImplementedVariant()", ("site", "RemoveIntersections.phaseAOne", "RemoveIntersections: Hints[implements_variant].(string)", "variantHintOk (the assertion is inside ImplementedVariant)", "C04/yaml/implements-variant-not-string")),
  ("ast/types.go", "Type.ImplementedVariant", ".(string)", ("site", "RemoveIntersections.phaseAOne", "RemoveIntersections: Hints[implements_variant].(string)", "variantHintOk", "C04/yaml/implements-variant-not-string")),
@@ -135,6 +135,16 @@ for o in ops:
         disp = '.%s "%s"' % ({'guarded': 'guarded', 'dispatch': 'dispatch', 'loop': 'loopBounded', 'freshMap': 'freshMap', 'nonNil': 'nonNil',
                               'structural': 'structuralRec', 'refRecursion': 'refRecursion', 'crash': 'crashStreamOnly', 'guardedElsewhere': 'guardedElsewhere'}[kind], esc(d_[1]))
     lines.append('  ⟨"%s", "%s", "%s", "%s", %d, "%s", %s⟩' % (esc(o['file']), esc(o['func']), esc(o['kind']), esc(o['guard']), o['n'], esc(o['expr']), disp))
+    # siblings: the same operation with FEWER copies, or with a guard ADDED, is harmless a fortiori
+    GUARD = {'index': 'len', 'slice': 'len', 'as': 'kind', 'kindptr': 'kind', 'mapwrite': 'nil-check', 'rangeptr': 'nil-check'}
+    variants = []
+    for n in range(1, o['n'] + 1):
+        guards = [o['guard']] + ([GUARD[o['kind']]] if o['guard'] == 'none' and o['kind'] in GUARD else [])
+        for g in guards:
+            if (n, g) != (o['n'], o['guard']):
+                variants.append((n, g))
+    for n, g in variants:
+        lines.append('  ⟨"%s", "%s", "%s", "%s", %d, "%s", .guarded "sibling of the reviewed row: fewer copies and/or a guard added in the sources"⟩' % (esc(o['file']), esc(o['func']), esc(o['kind']), esc(g), n, esc(o['expr'])))
 print(stats)
 CH = 60
 chunks = [lines[i:i + CH] for i in range(0, len(lines), CH)]
